@@ -550,7 +550,11 @@ class PE(object):
         content[0] = bytes(self.Doshdr)
 
         for section in self.SHList.shlist:
-            content[section.offset:section.offset + section.rawsize] = bytes(section.data)
+            # section.data spans the virtual size: only its raw part is in the
+            # file (a slice assignment of another length would move the data
+            # of the sections already written further in the file)
+            data = bytes(section.data)[:section.rawsize]
+            content[section.offset:section.offset + len(data)] = data
 
         # fix image size
         section_last = self.SHList.shlist[-1]
